@@ -114,6 +114,24 @@ def run_impl(pulse, key, theta, a):
     return float(v1), float(v2), float(v3), kinds
 
 
+def long_history_case(rng, n_distinct):
+    """one Integrator (constant pulse, lookup branch: fast) answers n_distinct different requests, then the first 400 again: every
+    repeated answer must be bit-identical to its first answer and to a fresh integrator's.  Returns (requests made, failure | None)."""
+    from quantum_gates._gates.integrator import Integrator
+    from quantum_gates._gates import pulse as P
+    I = Integrator(P.ConstantPulse())
+    reqs = [(rng.choice(KEYS), rng.uniform(-7, 7), rng.choice((1.0, rng.uniform(0.2, 9)))) for _ in range(n_distinct)]
+    first = [float(I.integrate(k, t, a)) for k, t, a in reqs]
+    fresh = Integrator(P.ConstantPulse())
+    for (k, t, a), v in list(zip(reqs, first))[:400]:
+        again = float(I.integrate(k, t, a))
+        cold = float(fresh.integrate(k, t, a))
+        if again != v or again != cold:
+            return n_distinct + 400, (k, t, a, f"after {n_distinct} other requests on the same integrator the repeated request returns {again!r}; "
+                                                f"its first answer was {v!r}, a fresh integrator returns {cold!r}")
+    return n_distinct + 400, None
+
+
 def judge(spec, key, theta, a, pulse=None):
     """the property statement evaluated on the real code; returns (failure text | None, record)"""
     pulse = pulse if pulse is not None else make_pulse(spec)
@@ -124,6 +142,10 @@ def judge(spec, key, theta, a, pulse=None):
     except Exception as e:                                     # noqa
         return f"raised {type(e).__name__}: {e}", {"expected": ref, "observed": f"{type(e).__name__}", "warnings": []}
     tol = max(REL_TOL * abs(ref), ABS_TOL * float(a))
+    if pulse.use_lookup and abs(float(theta)) < 1e-6:
+        # closed forms at tiny angles: `1 - cos(theta)` rounds (measured on the fp grid: at most 5.6e-9*a, key 'sin(theta/a)');
+        # an absolute allowance of 1e-8*a keeps this regime inside the oracle instead of excluding it
+        tol = max(tol, 1e-8 * float(a))
     rec = {"expected": ref, "observed": repr(v1), "tolerance": tol, "warnings": warn}
     if not (abs(v1 - ref) <= tol) and not pulse.use_lookup and math.isfinite(v1):
         # numerical branch: the code calls quad with its default tolerances (epsabs = epsrel = 1.49e-8).  "quad is the integral
@@ -222,16 +244,12 @@ def cases(ctx):
         for pf in ("constant", "constant_numerical", "gaussian", "user"):
             for tf, af in (("gate", "one"), ("gate", "cr"), ("moderate", "random"), ("zero", "random"), ("zero", "one"),
                            ("tiny", "random"), ("large", "random"), ("large", "cr")):
-                if pf == "constant" and tf == "tiny":
-                    continue                      # cancellation regime of the closed forms: measured separately (fp grid)
                 out.append((pulse_of(rng, pf), key, theta_of(rng, tf), a_of(rng, af), f"{tf}/{af}"))
     n_random = 12000 if ctx.thorough else 1500
     for _ in range(n_random):
         pf = rng.choices(("constant", "constant_numerical", "constant_user_lookup", "gaussian", "user"), (3, 2, 1, 6, 5))[0]
         tf = rng.choices(("gate", "moderate", "tiny", "large", "zero"), (3, 4, 2, 2, 1))[0]
         af = rng.choices(("one", "cr", "random"), (2, 2, 5))[0]
-        if pf in ("constant", "constant_user_lookup") and tf == "tiny":
-            tf = "moderate"
         out.append((pulse_of(rng, pf), rng.choice(KEYS), theta_of(rng, tf), a_of(rng, af), f"{tf}/{af}"))
     return out
 
@@ -427,6 +445,15 @@ def main(ctx):
             quad_limited.append({"pulse": spec, "key": key, "theta": theta, "a": a, **rec["quad_limited"]})
         if bad:
             fails.append((spec, key, theta, a, bad, rec))
+    # cached and uncached evaluations are identical also after a LONG history on one integrator object (thousands of distinct
+    # requests in between)
+    lh = long_history_case(ctx.rng, 12000 if ctx.thorough else 5000)
+    ctx.count(lh[0])
+    cov["long_history_requests"] = lh[0]
+    if lh[1]:
+        spec0 = {"kind": "constant"}
+        key0, th0, a0, text = lh[1]
+        fails.append((spec0, key0, th0, a0, text, {"expected": None, "observed": None, "warnings": [], "history": lh[0]}))
     for k in (1, len(CORPUS) + 3, len(cs) - 1):
         spec, key, theta, a, _ = cs[k]
         ctx.sample({"pulse": spec, "key": key, "theta": theta, "a": a, "integrate": run_impl(pulses[json.dumps(spec, sort_keys=True)], key, theta, a)[0]})
